@@ -90,6 +90,18 @@ def run(ctx):
         if same_ray and not rel(b3, b, 1e-9):
             ctx.violate(f"the same inspection rotated out of the Oxz plane gives beamspread {b3!r} instead of {b!r}: "
                         "it does not depend on leg lengths, velocities and incidence angles only", {**cj, "rotation": R.tolist()}, {"kind": "rigid_motion"})
+        # the same walls described by ONE basis each (the documented shorthand for a planar wall) instead of one basis per point
+        single = []
+        for i in path.interfaces:
+            O1 = g.Points(np.array(i.orientations.coords[0]), i.orientations.name)
+            single.append(arim.Interface(i.points, O1, i.kind, i.transmission_reflection, i.reflection_against,
+                                         i.are_normals_on_inc_rays_side, i.are_normals_on_out_rays_side))
+        p4 = arim.Path(tuple(single), path.materials, path.modes, name=path.name)
+        arim.ray.ray_tracing_for_paths([p4])
+        b4 = float(model.beamspread_2d_for_path(ray.RayGeometry.from_path(p4))[0, 0])
+        ctx.count("single_basis_per_wall")
+        if np.array_equal(p4.rays.indices, path.rays.indices) and not rel(b4, b, 1e-12):
+            ctx.violate(f"the same walls given one basis each instead of one basis per point give beamspread {b4!r} instead of {b!r}", {**cj, "tilts": info["tilts"]}, {"kind": "single_basis"})
     check_wall_door(ctx)
     ctx.assumptions.append("sin / cos / sqrt are external routines; the neighbourhood of total-reflection angles is excluded (the tube degenerates)")
 
